@@ -185,6 +185,7 @@ let validate_trace (lines : string list) (inherited : int) : string =
          | "cheat", _ -> step (ECheat (zi pid)) true
          | "reap_eat", _ -> step (EReapEat (zi pid)) true
          | "reap_create", _ -> step (EReapCreate (zi pid)) true
+         | "abandon", [n] -> step (EAbandon (zi pid, nat_of_int_ (int_of_string n))) true
          | "release", [n; shared] ->
              if known () then begin
                let before = (match !st with Some s -> iz s.t | None -> 0) in
